@@ -64,7 +64,7 @@ func (b *Bundle) NameFeature(class, role string) {
 	}
 }
 
-var CollisionKinds = []string{"exact", "case", "several", "generatedName", "oaigenTaken", "oaigen1Taken", "paramsBodyTaken", "twoImportsSameName"}
+var CollisionKinds = []string{"exact", "case", "several", "generatedName", "oaigenTaken", "oaigen1Taken", "paramsBodyTaken", "twoImportsSameName", "caseTwinsInline", "prefixNames"}
 
 // Collision plants a name collision pattern. Imported definitions that collide are $ref-free.
 func (b *Bundle) Collision(kind string) {
@@ -117,6 +117,20 @@ func (b *Bundle) Collision(kind string) {
 		jx.AsObj(op["responses"])["200"] = jx.Obj{"description": b.lbl("ok"), "schema": b.Obj()}
 		use(b.Def("getPb"+k+"ParamsBody", b.Obj()))
 		use(b.Def("getPb"+k+"OKBody", b.Obj()))
+	case "caseTwinsInline":
+		// two pre-existing definitions differing by case only, each with a complex inline schema at the same place:
+		// full flattening derives the same name for both
+		for _, n := range []string{"Twin" + k, "twin" + k} {
+			use(b.Def(n, jx.Obj{"type": "object", "description": b.lbl("tw"), "properties": jx.Obj{"meta": b.Obj(), "list": jx.Obj{"type": "array", "items": b.Obj()}}}))
+		}
+	case "prefixNames":
+		// a definition name that is a proper prefix of another one; the longer-named one is the only referrer of a chain
+		use(b.Def("Acct"+k+"Settings", jx.Obj{"type": "object", "description": b.lbl("px"), "properties": jx.Obj{"theme": jx.Obj{"$ref": "#/definitions/Theme" + k}}}))
+		b.Def("Theme"+k, jx.Obj{"type": "object", "description": b.lbl("px"), "properties": jx.Obj{"color": jx.Obj{"$ref": "#/definitions/Color" + k}}})
+		b.Def("Color"+k, b.Obj())
+		b.Def("Acct"+k, b.Obj()) // unused, and a prefix of the used one
+		b.Def("Acct"+k+"Set", jx.Obj{"type": "object", "description": b.lbl("px"), "properties": jx.Obj{"x": jx.Obj{"$ref": "#/definitions/Acct" + k}}}) // unused too
+		b.Tag("unused")
 	case "twoImportsSameName":
 		b.AuxDef("sub/a.json", "dup"+k, b.Obj())
 		b.AuxDef("other/c.json", "dup"+k, b.Obj())
@@ -284,6 +298,13 @@ func sysSpecs() []sysSpec {
 			add(fmt.Sprintf("name/%s/%s", cl, r), func(b *Bundle) { b.NameFeature(cl, r) })
 		}
 	}
+	for _, cl := range NameClasses {
+		for _, r := range []string{"importedDefinition", "property", "definition"} {
+			cl, r := cl, r
+			// two names of the same class in the same role (names that are mangled alike meet each other)
+			add(fmt.Sprintf("name-pair/%s/%s", cl, r), func(b *Bundle) { b.NameFeature(cl, r); b.NameFeature(cl, r); b.Tag("cell:name-pair/" + cl + "/" + r) })
+		}
+	}
 	for _, k := range CollisionKinds {
 		k := k
 		add("collision/"+k, func(b *Bundle) { b.Collision(k) })
@@ -389,7 +410,7 @@ func RndBundle(rng *rand.Rand, maxFeatures int) *Bundle {
 		case k < 75:
 			c := Pick(rng, CollisionKinds)
 			if single {
-				c = Pick(rng, []string{"generatedName", "paramsBodyTaken"})
+				c = Pick(rng, []string{"generatedName", "paramsBodyTaken", "caseTwinsInline", "prefixNames"})
 				b.Collision(c)
 			} else if Chance(rng, 60) {
 				ws := collisionWhereSets()
